@@ -242,13 +242,26 @@ def make_harness(cfg):
             ctx.stats.obligations += 1
             r3, m3 = ctx.sat_model(z3.Not(z3.And(*c3)))
             if r3 == 'sat':
-                red = [d for d in shape if z3.is_true(m3.eval(z3.And(moved[d] != pre[d],
-                                                                     repo.status_of(moved[d]) != OK), model_completion=True))]
-                res['c03_bad'] = dict(
-                    status={n: symgit.STATUSES[model_value(m3, t)] for n, t in st_terms.items()},
-                    moved={d: (str(z3.simplify(moved[d])) != str(z3.simplify(pre[d]))) for d in shape},
-                    landed={d: [n for n, t in tips.items() if z3.is_true(z3.simplify(t == moved[d]))]
-                            for d in shape}, red=red)
+                # one counterexample per kind of destination (the signature must not depend on which
+                # model the solver happens to return)
+                res['c03_bad'] = []
+                for kind in ('development', 'stabilization', 'hotfix'):
+                    ds = [d for d in shape if d.split('/')[0] == kind]
+                    if not ds:
+                        continue
+                    rk, mk = ctx.sat_model(z3.Or(*[z3.And(moved[d] != pre[d], repo.status_of(moved[d]) != OK)
+                                                   for d in ds]))
+                    if rk != 'sat':
+                        continue
+                    red = [d for d in ds if z3.is_true(mk.eval(z3.And(moved[d] != pre[d],
+                                                                      repo.status_of(moved[d]) != OK),
+                                                               model_completion=True))]
+                    res['c03_bad'].append(dict(
+                        kind=kind,
+                        status={n: symgit.STATUSES[model_value(mk, t)] for n, t in st_terms.items()},
+                        moved={d: (str(z3.simplify(moved[d])) != str(z3.simplify(pre[d]))) for d in shape},
+                        landed={d: [n for n, t in tips.items() if z3.is_true(z3.simplify(t == moved[d]))]
+                                for d in shape}, red=red))
         if r != 'sat':
             r2, m2 = ctx.sat_model()
             res['wit'] = dict(
@@ -519,15 +532,13 @@ def c03_part(rep):
         for _, r in results:
             if r.get('wit') and any(l and d.startswith('hotfix/') for d, l in r['wit']['landed'].items()):
                 moved_hot = True
-            b = r.get('c03_bad')
-            if b:
-                kinds = sorted(set(d.split('/')[0] for d in b['red']))
+            for b in r.get('c03_bad') or []:
                 try:
                     why = family(cfg, b)
                 except Exception:
                     why = 'queue %s' % cfg['struct']
                 fams.setdefault('queue merge advanced a %s branch to a commit whose build is not SUCCESSFUL [%s]' % (
-                    '/'.join(kinds), why), (cfg, b))
+                    b['kind'], why), (cfg, b))
     rep.add_part('queue structures under the C03 clause', configurations=len(cfgs))
     if not moved_hot:
         rep.error('vacuity: no hotfix destination advanced in the queue structures')
